@@ -606,7 +606,9 @@ def render(req, lvl, rng, canonical=False):
             if 0 < j < len(v) - 1:
                 vv = v[:j] + eol() + rng.choice([b" ", b"\t"]) + v[j + 1:]
                 folded.add(i)
-        head += n + b":" + ows1 + vv + ows2 + eol()
+        # whitespace between field name and colon is admitted (and removed from the name) at the most lenient level only
+        pre = rng.choice([b"", b"", b" ", b"\t "]) if (not canonical and lvl <= -3) else b""
+        head += n + pre + b":" + ows1 + vv + ows2 + eol()
         kv.append((1, n, v))
     head += eol()
     kv += cookie_kv
@@ -637,7 +639,7 @@ class Spec:
                          "Mhd.C02.cookie_string_no_fault", "Mhd.C02.cookie_no_fault", "Mhd.C02.every_target_has_rendering",
                          "Mhd.C02.cookies_roundtrip_partial", "Mhd.C02.cookie_header_roundtrip_partial",
                          "Mhd.C02.reqline_target_roundtrip_all_levels_partial", "Mhd.C02.lookup_exact",
-                         "Mhd.C02.cookies_only_from_cookie_field"]
+                         "Mhd.C02.cookies_only_from_cookie_field", "Mhd.C02.target_buffer_extension", "Mhd.C02.fields_roundtrip_nc_partial"]
     trusted_base = ["Lean 4 kernel", "axioms: propext, Classical.choice, Quot.sound at most (audited per theorem)",
                     "hand-written model lean/Mhd/Model/Req*.lean tied to connection.c/internal.c/mhd_str.c by this run's correspondence",
                     "tools/props/C02.py translator (strictness thresholds, constants regenerated)",
